@@ -59,6 +59,15 @@ Theorem C12_abstain_never_miss :
 Proof. exact abstain_never_miss. Qed.
 Print Assumptions C12_abstain_never_miss.
 
+(** The band's "standard deviation" is the implemented one; without overflow (deviations up to 10^27,
+    up to 10^6 votes) it is floor(sqrt(mean of rounded squared deviations of the positive votes)). *)
+Theorem C12_stddev_exact_when_no_overflow :
+  forall vs m, Z.of_nat (length vs) <= N_MAX ->
+  (forall v, In v vs -> 0 < pv_rate v -> Z.abs (pv_rate v - m) <= DEV_MAX) ->
+  stddev vs m = if npos vs =? 0 then 0 else Z.sqrt (Z.quot (sq_sum m vs) (npos vs)) * Nib.C10.ProofsPanic.E9.
+Proof. exact stddev_exact. Qed.
+Print Assumptions C12_stddev_exact_when_no_overflow.
+
 (** Slash window: who is slashed, by how much, and what the valid-vote rate is. *)
 Theorem C12_slash_exactly_low_valid_rate_bonded_unjailed :
   forall q mc sv,
